@@ -90,15 +90,8 @@ def roots(facts):
     return out, entries
 
 
-def run(tier):
-    res = Result("C09", LEVEL)
-    res.trusted = ["SAFE table of rules/models.py: the listed dependency functions return Result / values and do not panic on any input (base64 decode, serde_json from_str/to_value, from_utf8, ring hkdf / verify / constant-time compare, "
-                   "hmac / blake2 update+finalize, cipher constructors taking &GenericArray, apply_keystream (< 2^32 blocks), AEAD decrypt, ed25519 / p384 parsing and verification, time parse / now)",
-                   "Blake2bMac::new_from_slice fails only for keys longer than 64 bytes; HMAC accepts any key length; XChaCha20Poly1305::new_from_slice needs 32 bytes",
-                   "slice and Vec lengths are at most isize::MAX (sums of two lengths do not overflow usize)"]
-    res.assumptions = ["caller-supplied validators and Serialize impls may panic on their own: not the library's obligation", "tokens are shorter than 2^32 cipher blocks"]
-    facts = F.load("all")
-    rts, entries = roots(facts)
+def interpret(facts, rts, tier):
+    """follow every path of the given roots; returns (interpreter with its panic-site inventory, #paths, unmodelled callees, aborted paths, per-entry coverage)"""
     # thorough: one more symbolic iteration of every opaque loop (three expected claims / validators / segments) and a larger path budget
     I = A.Interp(facts, MD.MODELS, max_paths=20000 if tier != "thorough" else 400000, sym_loop_unroll=2 if tier != "thorough" else 3)
     npaths = 0
@@ -118,6 +111,19 @@ def run(tier):
             if o.kind == "abort" and o.value not in ("unreachable",):
                 aborted.append((label, o.value, " & ".join(o.state.cond)[:200]))
         covered.append({"entry": label, "paths": len(outs), "returns": kinds.get("return", 0), "panics": kinds.get("panic", 0)})
+    return I, npaths, unmod, aborted, covered
+
+
+def run(tier):
+    res = Result("C09", LEVEL)
+    res.trusted = ["SAFE table of rules/models.py: the listed dependency functions return Result / values and do not panic on any input (base64 decode, serde_json from_str/to_value, from_utf8, ring hkdf / verify / constant-time compare, "
+                   "hmac / blake2 update+finalize, cipher constructors taking &GenericArray, apply_keystream (< 2^32 blocks), AEAD decrypt, ed25519 / p384 parsing and verification, time parse / now)",
+                   "Blake2bMac::new_from_slice fails only for keys longer than 64 bytes; HMAC accepts any key length; XChaCha20Poly1305::new_from_slice needs 32 bytes",
+                   "slice and Vec lengths are at most isize::MAX (sums of two lengths do not overflow usize)"]
+    res.assumptions = ["caller-supplied validators and Serialize impls may panic on their own: not the library's obligation", "tokens are shorter than 2^32 cipher blocks"]
+    facts = F.load("all")
+    rts, entries = roots(facts)
+    I, npaths, unmod, aborted, covered = interpret(facts, rts, tier)
     floor_roots = 24 + 2 + 1
     if len(rts) < floor_roots:
         res.violate("C09.R0", "(entry points)", "entry points missing", "expected %d analysed entry points (24 consumers, 2 default validators, Key::try_from(&str)); found %d" % (floor_roots, len(rts)))
